@@ -13,7 +13,7 @@ for d in /verif/seeded/${1:-*}_m*; do
   [ -f "$d/also_checks" ] && checks="$pid $(cat $d/also_checks)"
   res=""
   for c in $checks; do
-    (cd /verif && VERIF_REPO="$WT" /venv/bin/python -m harness.check $c --tier quick > /tmp/seeded_$n.log 2>&1); rc=$?
+    (cd /verif && VERIF_OUT=/verif/out_seeded VERIF_REPO="$WT" /venv/bin/python -m harness.check $c --tier quick > /tmp/seeded_$n.log 2>&1); rc=$?
     res="$res $c=$rc"
   done
   case "$res" in *"=1"*) echo "$n CAUGHT$res";; *"=2"*) echo "$n ERROR$res";; *) echo "$n MISSED$res";; esac
